@@ -106,11 +106,27 @@ def _gate(kind, head, when):
     raise RuntimeError("unknown fault action " + action)
 
 
+def _will_fire_after():
+    plan = STATE["plan"]
+    return plan is not None and plan["event"] == len(STATE["events"]) and plan["when"] == "after"
+
+
 class SimCursor(sqlite3.Cursor):
+    def _settle(self):
+        """An error reported by sqlite3 for a statement leaves that statement reset.  A fault injected *after*
+        a statement ran must leave the same situation: finish the statement (drain pending rows) so that no
+        half-stepped SELECT keeps a read lock alive in a connection that is about to be closed."""
+        if _will_fire_after() and STATE["plan"]["action"].startswith("raise:"):
+            try:
+                sqlite3.Cursor.fetchall(self)
+            except sqlite3.Error:
+                pass
+
     def execute(self, sql, *args, **kwargs):
         h = head_of(sql)
         _gate("exec", h, "before")
         r = super().execute(sql, *args, **kwargs)
+        self._settle()
         _gate("exec", h, "after")
         return r
 
@@ -118,6 +134,7 @@ class SimCursor(sqlite3.Cursor):
         h = head_of(sql)
         _gate("exec", h, "before")
         r = super().executemany(sql, *args, **kwargs)
+        self._settle()
         _gate("exec", h, "after")
         return r
 
